@@ -206,7 +206,10 @@ pub fn judge(case: &Case, obs: &Obs) -> (Vec<Violation>, BTreeMap<String, u64>, 
     // the command-line runner never hands responses back: judged like the discard policy, as one run
     let cli = case.params.get("cli").map_or(false, |c| c.is_object());
     let persist = case.world.persist && !cli;
-    let hard_fired: u64 = obs.stats.faults.iter().filter(|(k, _)| k.starts_with("eio") || k.starts_with("enospc") || k.starts_with("eopen")).map(|(_, n)| *n).sum();
+    // hard faults on the output side (a write or the open of the output file) and on the input side (a read
+    // of the command-line runner's query file)
+    let hard_fired: u64 = obs.stats.faults.iter().filter(|(k, _)| *k == "eio_write" || k.starts_with("enospc") || k.starts_with("eopen")).map(|(_, n)| *n).sum();
+    let hard_read_fired: u64 = obs.stats.faults.get("eio_read").copied().unwrap_or(0);
     if let Some(e) = &obs.build_error {
         v.push(Violation { class: "build-failed".into(), detail: format!("application failed to build: {}", e) });
         return (v, reach, false);
@@ -220,17 +223,19 @@ pub fn judge(case: &Case, obs: &Obs) -> (Vec<Violation>, BTreeMap<String, u64>, 
     }
     let stage = obs.extra.get("stage").cloned().unwrap_or(Value::Null);
     let n_ok = |bi: usize, qi: usize| stage.get(bi).and_then(|s| s.get(qi)).and_then(|s| s.as_u64()).unwrap_or(0) as usize;
-    // expected search-stage responses (isolated) and what the caller got back
-    let mut expected_ref: Vec<Value> = vec![];
-    let mut returned_search: Vec<Value> = vec![];
+    // expected search-stage responses (isolated) and what the caller got back, per run() call
+    let mut expected_by_batch: Vec<Vec<Value>> = vec![];
+    let mut returned_by_batch: Vec<Vec<Value>> = vec![];
     let mut all_ok = true;
     for (bi, batch) in case.batches.iter().enumerate() {
         let mut n_search = 0;
+        let mut exp = vec![];
+        let mut ret = vec![];
         for (qi, _q) in batch.iter().enumerate() {
             let rs = obs.reference[bi][qi].clone().unwrap();
             let k = n_ok(bi, qi).min(rs.len());
             n_search += k;
-            expected_ref.extend(rs.into_iter().take(k));
+            exp.extend(rs.into_iter().take(k));
         }
         match obs.runs.get(if cli { 0 } else { bi }) {
             Some(Some(Ok(r))) => {
@@ -239,7 +244,7 @@ pub fn judge(case: &Case, obs: &Obs) -> (Vec<Violation>, BTreeMap<String, u64>, 
                         v.push(Violation { class: "returned-count".into(), detail: format!("run {} returned {} responses, {} search responses expected", bi, r.len(), n_search) });
                         all_ok = false;
                     } else {
-                        returned_search.extend(r[..n_search].iter().cloned());
+                        ret.extend(r[..n_search].iter().cloned());
                     }
                 }
             }
@@ -253,6 +258,16 @@ pub fn judge(case: &Case, obs: &Obs) -> (Vec<Violation>, BTreeMap<String, u64>, 
             }
             _ => all_ok = false,
         }
+        expected_by_batch.push(exp);
+        returned_by_batch.push(ret);
+    }
+    let expected_ref: Vec<Value> = expected_by_batch.iter().flatten().cloned().collect();
+    let returned_search: Vec<Value> = returned_by_batch.iter().flatten().cloned().collect();
+    // which sinks each run writes to (per-run output policy overrides)
+    let n_sinks = if case.world.out2.is_some() { 2 } else { 1 };
+    let mask_of = |bi: usize| -> u8 { case.world.per_run_sinks.as_ref().and_then(|m| m.get(bi)).copied().unwrap_or(3) & if n_sinks == 2 { 3 } else { 1 } };
+    if case.world.per_run_sinks.is_some() {
+        bump("per_run_output_policies", 1);
     }
     let nontrivial = expected_ref.len() > 1;
     bump("records_expected", expected_ref.len() as u64);
@@ -284,7 +299,34 @@ pub fn judge(case: &Case, obs: &Obs) -> (Vec<Violation>, BTreeMap<String, u64>, 
                 earlier_csv.push(mapping.clone());
             }
         }
-        judge_sink(sink, &earlier_csv, data, si, &expected_ref, &returned_search, all_ok, relaxed, hard_fired, any_csv, persist, &mut v, &mut bump);
+        let exp_sink: Vec<Value> = expected_by_batch.iter().enumerate().filter(|(bi, _)| cli || mask_of(*bi) & (1 << si) != 0).flat_map(|(_, e)| e.iter().cloned()).collect();
+        let ret_sink: Vec<Value> = returned_by_batch.iter().enumerate().filter(|(bi, _)| cli || mask_of(*bi) & (1 << si) != 0).flat_map(|(_, e)| e.iter().cloned()).collect();
+        let never_used = !cli && (0..case.batches.len()).all(|bi| mask_of(bi) & (1 << si) == 0);
+        if never_used {
+            // no run named this file: it must not exist (or be untouched)
+            if data.as_ref().map_or(false, |d| !d.is_empty() && !sink.preexisting) {
+                v.push(Violation { class: "file-written-by-wrong-run".into(), detail: format!("the file of sink {} was written although no run() named it in its output policy", si) });
+            }
+            continue;
+        }
+        let before = v.len();
+        judge_sink(sink, &earlier_csv, data, si, &exp_sink, &ret_sink, all_ok, relaxed, hard_fired, any_csv, persist, &mut v, &mut bump);
+        if hard_read_fired > 0 {
+            // a failed read of the query file may cost the row that was being read - one query per fault, never more,
+            // and never anything else
+            bump("query_file_read_faults", hard_read_fired);
+            let lost: Vec<usize> = (before..v.len()).filter(|i| v[*i].class == "file-lost" || v[*i].class == "csv-row-missing").collect();
+            let n_lost: u64 = lost.iter().map(|i| if v[*i].class == "csv-row-missing" { v[*i].detail.split(' ').next().and_then(|n| n.parse::<u64>().ok()).unwrap_or(u64::MAX) } else { 1 }).sum();
+            // (one lost row is one lost query, which may be owed several records after grid expansion)
+            let mut per_query: Vec<u64> = case.batches.iter().enumerate().flat_map(|(bi, b)| (0..b.len()).map(move |qi| (bi, qi))).map(|(bi, qi)| n_ok(bi, qi) as u64).collect();
+            per_query.sort_by(|a, b| b.cmp(a));
+            let allowance: u64 = per_query.iter().take(hard_read_fired as usize).sum();
+            if n_lost <= allowance {
+                for i in lost.into_iter().rev() {
+                    v.remove(i);
+                }
+            }
+        }
     }
     // the response handed back still carries what the isolated response carries
     if persist && all_ok {
@@ -345,7 +387,14 @@ impl Check for C19 {
                 2 => r.range(1, 5) as i64,
                 _ => 1000,
             };
-            c.params = json!({"cli": {"chunksize": chunk, "crlf": r.chance(0.2), "no_final_newline": r.chance(0.3)}});
+            c.world.per_run_sinks = None;
+            let mut garbage: Vec<Value> = vec![];
+            if r.chance(0.35) {
+                for _ in 0..r.range(1, 3) {
+                    garbage.push(json!([r.below(total.max(1) as u64), r.below(4)]));
+                }
+            }
+            c.params = json!({"cli": {"garbage": garbage, "chunksize": chunk, "crlf": r.chance(0.2), "no_final_newline": r.chance(0.3)}});
             c.simcfg.fault_paths = vec!["/sim/out".into(), "/sim/queries".into()];
         }
         match family {
@@ -354,9 +403,19 @@ impl Check for C19 {
                 c.simcfg.io_fault_rate = *r.pick(&[0.0, 0.05, 0.2, 0.5]);
             }
             "cli-hard" => {
-                c.simcfg.fault_paths = vec!["/sim/out".into()];
-                c.simcfg.faults = sim::F_SHORT_WRITE | sim::F_EINTR_WRITE | *r.pick(&[sim::F_EIO_WRITE, sim::F_ENOSPC_WRITE, sim::F_EOPEN]);
-                c.simcfg.io_fault_rate = *r.pick(&[0.05, 0.2]);
+                let kind = *r.pick(&[sim::F_EIO_WRITE, sim::F_ENOSPC_WRITE, sim::F_EOPEN, sim::F_EIO_READ, sim::F_EIO_READ]);
+                if kind == sim::F_EIO_READ {
+                    // one read of the query file fails once (a medium that stays unreadable makes the runner read
+                    // forever - outside the listed properties, see DESIGN.md 7)
+                    c.simcfg.fault_paths = vec!["/sim/queries".into()];
+                    c.simcfg.faults = sim::F_SHORT_READ | sim::F_EIO_READ;
+                    c.simcfg.no_sticky_faults = true;
+                    c.simcfg.io_fault_rate = *r.pick(&[0.3, 0.9]);
+                } else {
+                    c.simcfg.fault_paths = vec!["/sim/out".into()];
+                    c.simcfg.faults = sim::F_SHORT_WRITE | sim::F_EINTR_WRITE | kind;
+                    c.simcfg.io_fault_rate = *r.pick(&[0.05, 0.2]);
+                }
                 c.simcfg.max_hard_faults = 1;
             }
             "legal-faults" => {
